@@ -95,6 +95,9 @@ impl<'a> IntoIterator for &'a Directory {
     }
 }
 
+/// Upper limit for the number of entries space is reserved for before they were read.
+const MAX_RESERVED_ENTRIES: usize = 16_384;
+
 fn invalid_data(message: &'static str) -> std::io::Error {
     std::io::Error::new(std::io::ErrorKind::InvalidData, message)
 }
@@ -117,7 +120,9 @@ impl Directory {
 
         let num_entries = read_varint([usize], [reader])?;
 
-        let mut entries = Vec::<Entry>::with_capacity(num_entries);
+        // `num_entries` is untrusted input: reserve a bounded amount up front and let
+        // the vector grow while entries are actually read
+        let mut entries = Vec::<Entry>::with_capacity(num_entries.min(MAX_RESERVED_ENTRIES));
 
         // read tile_id
         let mut last_id = 0u64;
